@@ -42,6 +42,9 @@ type c04Doc struct {
 type c04Frac struct {
 	Docs   []c04Doc
 	Sealed bool
+	// Deleted: the fraction is deleted (Suicide, as retention does) AFTER the list of fractions used by the
+	// requests was taken: its documents are gone (not found), the request must not fail
+	Deleted bool
 }
 
 type c04Corpus struct {
@@ -53,20 +56,22 @@ type c04Corpus struct {
 }
 
 var c04Corpora = []c04Corpus{
-	{"one-active", []c04Frac{{[]c04Doc{{1000, 5, 2}, {1001, 5, 40}, {1002, 5, 200}}, false}}, false},
-	{"one-sealed", []c04Frac{{[]c04Doc{{1000, 5, 2}, {1001, 5, 40}, {1002, 5, 200}}, true}}, false},
-	{"sealed+active-overlap", []c04Frac{{[]c04Doc{{1000, 5, 30}, {1001, 5, 2}}, true}, {[]c04Doc{{1001, 7, 100}, {1003, 5, 9}}, false}}, false},
-	{"two-sealed-overlap", []c04Frac{{[]c04Doc{{1000, 5, 30}, {1002, 9, 2}}, true}, {[]c04Doc{{1001, 7, 100}, {1002, 3, 9}}, true}}, false},
-	{"single-doc-sealed", []c04Frac{{[]c04Doc{{1000, 5, 17}}, true}}, false},
-	{"single-doc-active", []c04Frac{{[]c04Doc{{1000, 5, 17}}, false}}, false},
-	{"equal-mids-sealed", []c04Frac{{[]c04Doc{{1000, 5, 10}, {1000, 7, 20}, {1000, 9, 30}, {1001, 1, 5}}, true}}, false},
+	{"one-active", []c04Frac{{[]c04Doc{{1000, 5, 2}, {1001, 5, 40}, {1002, 5, 200}}, false, false}}, false},
+	{"one-sealed", []c04Frac{{[]c04Doc{{1000, 5, 2}, {1001, 5, 40}, {1002, 5, 200}}, true, false}}, false},
+	{"sealed+active-overlap", []c04Frac{{[]c04Doc{{1000, 5, 30}, {1001, 5, 2}}, true, false}, {[]c04Doc{{1001, 7, 100}, {1003, 5, 9}}, false, false}}, false},
+	{"two-sealed-overlap", []c04Frac{{[]c04Doc{{1000, 5, 30}, {1002, 9, 2}}, true, false}, {[]c04Doc{{1001, 7, 100}, {1002, 3, 9}}, true, false}}, false},
+	{"single-doc-sealed", []c04Frac{{[]c04Doc{{1000, 5, 17}}, true, false}}, false},
+	{"single-doc-active", []c04Frac{{[]c04Doc{{1000, 5, 17}}, false, false}}, false},
+	{"equal-mids-sealed", []c04Frac{{[]c04Doc{{1000, 5, 10}, {1000, 7, 20}, {1000, 9, 30}, {1001, 1, 5}}, true, false}}, false},
 	// two fractions sealed one after the other in one process, each with several doc blocks (64-byte blocks)
-	{"two-sealed-multiblock", []c04Frac{{[]c04Doc{{1000, 5, 70}, {1001, 5, 80}, {1002, 5, 90}}, true}, {[]c04Doc{{1003, 5, 100}, {1004, 5, 120}, {1005, 5, 65}, {1006, 5, 75}}, true}}, false},
+	{"two-sealed-multiblock", []c04Frac{{[]c04Doc{{1000, 5, 70}, {1001, 5, 80}, {1002, 5, 90}}, true, false}, {[]c04Doc{{1003, 5, 100}, {1004, 5, 120}, {1005, 5, 65}, {1006, 5, 75}}, true, false}}, false},
+	// a sealed fraction deleted after the requests' fraction list was taken, next to a live one with the same time range
+	{"deleted-after-listing", []c04Frac{{[]c04Doc{{1000, 5, 30}, {1002, 9, 12}}, true, true}, {[]c04Doc{{1001, 7, 100}, {1002, 3, 9}}, true, false}}, false},
 	// six documents of one millisecond: with the scaled constants (4 IDs per block) the run crosses an ID-block border
-	{"equal-mids-two-id-blocks-sealed", []c04Frac{{[]c04Doc{{1000, 5, 10}, {1000, 7, 20}, {1000, 9, 30}, {1000, 3, 5}, {1000, 11, 8}, {1000, 1, 14}}, true}}, false},
+	{"equal-mids-two-id-blocks-sealed", []c04Frac{{[]c04Doc{{1000, 5, 10}, {1000, 7, 20}, {1000, 9, 30}, {1000, 3, 5}, {1000, 11, 8}, {1000, 1, 14}}, true, false}}, false},
 	// recent documents, sparse minutes: the oldest one is 30 s off the wall-clock minute, the others lie
 	// 10 s before / after that offset in their minutes, with empty minutes in between
-	{"recent-sparse-sealed", []c04Frac{{[]c04Doc{{12*60_000 - 30_000, 5, 10}, {8*60_000 - 20_000, 5, 20}, {8*60_000 - 40_000, 5, 30}, {4*60_000 - 40_000, 5, 12}, {2*60_000 - 20_000, 5, 25}}, true}}, true},
+	{"recent-sparse-sealed", []c04Frac{{[]c04Doc{{12*60_000 - 30_000, 5, 10}, {8*60_000 - 20_000, 5, 20}, {8*60_000 - 40_000, 5, 30}, {4*60_000 - 40_000, 5, 12}, {2*60_000 - 20_000, 5, 25}}, true, false}}, true},
 }
 
 var c04InitOnce sync.Once
@@ -139,6 +144,7 @@ func (c04MP) GetMapping() seq.Mapping { return nil }
 // ---- worker side ----
 
 type c04Store struct {
+	stale  fracmanager.List
 	dir    string
 	store  *storeapi.Store
 	client pb.StoreApiClient
@@ -189,6 +195,19 @@ func c04GetStore(ci int) *c04Store {
 			st.SealAll()
 		}
 	}
+	for fi, f := range corp.Fracs {
+		if !f.Deleted {
+			continue
+		}
+		if s.stale == nil {
+			s.stale = st.FracManager.GetAllFracs()
+		}
+		for _, fr := range s.stale {
+			if fr.Info().Name() == s.names[fi] {
+				fr.Suicide()
+			}
+		}
+	}
 	c04Stores[ci] = s
 	return s
 }
@@ -218,7 +237,11 @@ func c04Handle(raw json.RawMessage) any {
 	switch job.Via {
 	case "fetcher":
 		f := fracmanager.NewFetcher(2)
-		docs, err := f.FetchDocs(context.Background(), s.store.FracManager.GetAllFracs(), src)
+		list := s.store.FracManager.GetAllFracs()
+		if s.stale != nil {
+			list = s.stale // taken before a fraction was deleted
+		}
+		docs, err := f.FetchDocs(context.Background(), list, src)
 		if err != nil {
 			ans.Err = err.Error()
 		}
@@ -298,7 +321,9 @@ func c04Resolve(job c04Job) ([]c04ID, []string) {
 	var all []c04Doc
 	for _, f := range corp.Fracs {
 		for _, d := range f.Docs {
-			body[[2]uint64{d.MID, d.RID}] = c04Body(d)
+			if !f.Deleted {
+				body[[2]uint64{d.MID, d.RID}] = c04Body(d)
+			}
 			all = append(all, d)
 		}
 	}
@@ -588,7 +613,7 @@ func TestVerifC04(t *testing.T) {
 	}
 	ev := r.Get("evaluations")
 	r.Finish(t, "model_checking",
-		fmt.Sprintf("10 corpora (sealed fractions have several 64-byte doc blocks; one corpus seals two multi-block fractions one after the other), built with the scaled block constants of the `small` overlay (4 IDs per block) (active / sealed / overlapping fractions / equal MIDs within one and across two ID blocks / a sealed fraction of recent documents in sparse minutes, which has a minute occupancy map; doc sizes 2..200 B); every list of <=%d distinct IDs over {present IDs} + {absent IDs at every border: (From-1), (From,minRID-1), (From,minRID+1), between, (To,maxRID+1), (To+1,0), 0, max}; hints {none,right,wrong(mixed),unknown}; via Fetcher.FetchDocs and streaming GrpcV1.Fetch; plus lists of 1001/1500/2500 IDs with 0..3 present documents at start/middle/chunk end/end. Stores live in worker subprocesses; a dying or hanging store is a violation after 3 reproductions. non-trivial = a present document at a position > 0 or a large list", maxLen),
+		fmt.Sprintf("11 corpora (one with a sealed fraction deleted after the fraction list of the requests was taken; sealed fractions have several 64-byte doc blocks; one corpus seals two multi-block fractions one after the other), built with the scaled block constants of the `small` overlay (4 IDs per block) (active / sealed / overlapping fractions / equal MIDs within one and across two ID blocks / a sealed fraction of recent documents in sparse minutes, which has a minute occupancy map; doc sizes 2..200 B); every list of <=%d distinct IDs over {present IDs} + {absent IDs at every border: (From-1), (From,minRID-1), (From,minRID+1), between, (To,maxRID+1), (To+1,0), 0, max}; hints {none,right,wrong(mixed),unknown}; via Fetcher.FetchDocs and streaming GrpcV1.Fetch; plus lists of 1001/1500/2500 IDs with 0..3 present documents at start/middle/chunk end/end. Stores live in worker subprocesses; a dying or hanging store is a violation after 3 reproductions. non-trivial = a present document at a position > 0 or a large list", maxLen),
 		map[string]any{
 			"states":                        len(c04Corpora),
 			"transitions":                   ev,
